@@ -112,6 +112,22 @@ def symset(o, k, v):
     o[k] = v
 
 
+def symdict(pairs=(), **kw):
+    """dict(...) whose keys may be symbolic strings (later equal keys override earlier ones)"""
+    if isinstance(pairs, dict):
+        pairs = list(pairs.items())
+    pairs = list(pairs)
+    if not any(isinstance(k, SymStr) for k, _ in pairs):
+        d = dict(pairs)
+        d.update(kw)
+        return d
+    d = {}
+    for k, v in pairs:
+        symset(d, k, v)
+    d.update(kw)
+    return d
+
+
 def symdel(o, k):
     if type(o) in DICTS and isinstance(k, SymStr):
         for kk in list(o.keys()):
@@ -245,6 +261,8 @@ def symcall(f, *a, **k):
     tc = _TYPE_CALLS.get(f) if isinstance(f, type) else None
     if tc is not None:
         return tc(*a, **k)
+    if f is dict and a and not isinstance(a[0], dict):
+        return symdict(list(a[0]), **k)
     selfobj = getattr(f, "__self__", None)
     if selfobj is not None and not isinstance(selfobj, types.ModuleType):
         name = getattr(f, "__name__", None)
@@ -590,6 +608,11 @@ class Rewriter(ast.NodeTransformer):
         self.generic_visit(node)
         return ast.copy_location(ast.Call(func=_name("__symsetof__"), args=[ast.List(elts=node.elts, ctx=ast.Load())], keywords=[]), node)
 
+    def visit_DictComp(self, node):
+        self.generic_visit(node)
+        lc = ast.ListComp(elt=ast.Tuple(elts=[node.key, node.value], ctx=ast.Load()), generators=node.generators)
+        return ast.copy_location(ast.Call(func=_name("__symdictof__"), args=[lc], keywords=[]), node)
+
     def visit_JoinedStr(self, node):
         # f-strings only occur in logging arguments in lasio; keep but never with symbolic values
         return self.generic_visit(node)
@@ -653,6 +676,7 @@ def load_module(modname, path, shims, pkg_modules):
         __symmod__=symmod,
         __symin__=symin,
         __symsetof__=b_set,
+        __symdictof__=symdict,
     )
     # importable by name (the pure-Python pickler looks classes up through sys.modules)
     pkg = sys.modules.get("lasio_sym")
